@@ -266,7 +266,7 @@ def run(ctx, out, tier):
     # ------------------------------------------------------------------ C16.validate (-E values)
     v = 0
     av = ctx.facts.body("blockwatch::flags::Args::validate")
-    main = ctx.facts.bodies.get("bwbin::main")
+    main = ctx.main_view()
     if av is not None:
         av = ctx.inl(av, skip=ctx.domain_api, tag="domain", sugar=True)
         found = False
